@@ -300,9 +300,15 @@ pub(crate) fn gen_key(outfile: Option<String>, env_pass: bool) -> Result<(), any
     let key_config =
         Keyring::serialize_key(name.as_str(), &encoded_public_key, &encoded_private_key);
 
-    let key_output = if let Some(ref outfile) = outfile {
+    // If the file already exists, additional keys are appended to it.
+    let append = match outfile {
+        Some(ref outfile) => Path::new(outfile).exists(),
+        None => false,
+    };
+
+    let key_output = if outfile.is_some() {
         // If the file already exists, write additional keys beginning with a newline.
-        if Path::new(outfile).exists() {
+        if append {
             format!("\n{}", key_config)
         } else {
             key_config
@@ -314,7 +320,16 @@ pub(crate) fn gen_key(outfile: Option<String>, env_pass: bool) -> Result<(), any
     };
 
     let is_text = true;
-    let mut keyring = open_output(outfile.as_deref(), is_text)?;
+    let mut keyring: Box<dyn Write> = if append {
+        // Open for appending so that the keys already in the file are kept.
+        let file = std::fs::OpenOptions::new()
+            .append(true)
+            .open(outfile.as_deref().unwrap())
+            .map_err(|e| anyhow!("Could not open output file: {}", e))?;
+        Box::new(file)
+    } else {
+        open_output(outfile.as_deref(), is_text)?
+    };
     keyring.write_all(key_output.as_bytes())?;
     keyring.flush()?;
 
